@@ -112,6 +112,82 @@ impl Hash for PKey {
     }
 }
 
+// --- plain key with a user Clone (no drop glue, not Copy) ---------------------
+
+pub struct CKey {
+    pub id: u8,
+    pub tok: u32,
+}
+impl Clone for CKey {
+    fn clone(&self) -> Self {
+        env::tick(Class::Clone);
+        CKey { id: self.id, tok: self.tok }
+    }
+}
+impl KeyT for CKey {
+    const TRACKED: bool = false;
+    const NAME: &'static str = "plainclone";
+    fn make(id: u8, tok: u32) -> Self {
+        CKey { id, tok }
+    }
+    fn id(&self) -> u8 {
+        self.id
+    }
+    fn tok(&self) -> u32 {
+        self.tok
+    }
+    fn serial(&self) -> Option<u32> {
+        None
+    }
+}
+impl PartialEq for CKey {
+    fn eq(&self, o: &Self) -> bool {
+        eq_ids(self.id, o.id)
+    }
+}
+impl Eq for CKey {}
+impl Hash for CKey {
+    fn hash<H: Hasher>(&self, h: &mut H) {
+        env::tick(Class::Hash);
+        h.write_u8(self.id);
+    }
+}
+impl From<&KeyRef> for CKey {
+    fn from(r: &KeyRef) -> Self {
+        env::tick(Class::Into);
+        CKey::make(r.0, FROM_REF_TOK)
+    }
+}
+#[derive(PartialEq)]
+pub struct CVal(pub u32);
+impl Clone for CVal {
+    fn clone(&self) -> Self {
+        env::tick(Class::Clone);
+        CVal(self.0)
+    }
+}
+impl ValT for CVal {
+    const TRACKED: bool = false;
+    fn make(tok: u32) -> Self {
+        CVal(tok)
+    }
+    fn tok(&self) -> u32 {
+        self.0
+    }
+    fn set_tok(&mut self, tok: u32) {
+        self.0 = tok
+    }
+    fn serial(&self) -> Option<u32> {
+        None
+    }
+}
+impl Default for CVal {
+    fn default() -> Self {
+        env::tick(Class::Default);
+        CVal(DEFAULT_TOK)
+    }
+}
+
 #[inline]
 fn eq_ids(a: u8, b: u8) -> bool {
     env::tick(Class::Eq);
